@@ -162,9 +162,16 @@ class Sandbox:
         except TimeoutError as timeout_exception:
             _verif_sync('timeout_handler')
             self._stop_patches()
-            # The abandoned execution also pushed its stdout buffer
+            # The abandoned execution also pushed its stdout buffer; what the student
+            # printed before the limit expired is still the output of that execution
             if self._current_stdout:
-                self._current_stdout.pop()
+                abandoned_stdout = self._current_stdout.pop()
+                try:
+                    captured = abandoned_stdout.getvalue()
+                except ValueError:
+                    captured = ""
+                if self._context:
+                    self.append_output(captured, self._context[-1])
             self._capture_exception(timeout_exception, sys.exc_info(),
                                     code, filename)
             return self
